@@ -186,7 +186,7 @@ struct Sched {
 }
 static SCHED: Mutex<Option<Sched>> = Mutex::new(None);
 static SCHED_CV: std::sync::Condvar = std::sync::Condvar::new();
-const GATE_BUDGET_MS: u64 = 8000;
+const GATE_BUDGET_MS: u64 = 15000;
 
 /// blocks until the next schedule entry is (this thread, label); consumes it unless `peek`
 fn gate(label: &str, peek: bool) {
@@ -301,7 +301,7 @@ pub fn run_schedule(rec: &Value, plugin: &str) -> Value {
         });
     }
     let t0 = std::time::Instant::now();
-    while finished.load(Ordering::SeqCst) < nthreads as u64 && t0.elapsed().as_secs() < 30 {
+    while finished.load(Ordering::SeqCst) < nthreads as u64 && t0.elapsed().as_secs() < 45 {
         std::thread::sleep(std::time::Duration::from_millis(1));
     }
     let hung = finished.load(Ordering::SeqCst) < nthreads as u64;
